@@ -297,12 +297,12 @@ def run_loop(eng, s, fr, anchor, spec, idxname, body_guard, bind, n, after_exit)
             enter = eng.branch(c)
         if enter:
             # ghost names of the iteration: expressions evaluated as the iteration starts (e.g. where a cursor stood)
-            for g_, e_ in (spec.extra.get('ghosts') or {}).items():
-                fr.ghost[g_] = eng.pure_expr(e_, fr)
             if is_for:
                 bind(idx.t)
                 if spec.extra.get('snapshot_present'):
                     snapshot_present_rule(eng, s, fr, idx.t)
+            for g_, e_ in (spec.extra.get('ghosts') or {}).items():
+                fr.ghost[g_] = eng.pure_expr(e_, fr)
             d0 = eng.pure_expr(spec.decreases, fr) if spec.decreases else None
             try:
                 eng.exec_block(s.body, fr)
